@@ -18,6 +18,8 @@ GEN_SUBST = {
 
 
 def gen_cfg(family, maxnodes, maxclosure=2, emit="cases", invariants=("Emit",), extra=None):
+    if family == "nest":
+        maxclosure = 3      # the family of closures nested three deep
     c = dict(GEN_SUBST)
     c.update(Family=family, EmitMode=emit, MaxNodes=maxnodes, MaxClosure=maxclosure)
     c.update(extra or {})
@@ -211,9 +213,9 @@ def run_check(prop, tier, stages, rule, level="model_checking", assumptions=None
 
 C01_FAMILIES = {
     "quick": [("arith", 4), ("logic", 4), ("string", 4), ("coll", 4), ("access", 4), ("builtin", 5), ("mixed", 4),
-              ("calls", 5), ("inlit", 6)],
+              ("calls", 5), ("inlit", 6), ("rng", 5), ("nest", 8)],
     "thorough": [("arith", 5), ("logic", 5), ("string", 5), ("coll", 5), ("access", 5), ("builtin", 6), ("mixed", 5),
-                 ("calls", 6), ("inlit", 7)],
+                 ("calls", 6), ("inlit", 7), ("rng", 6), ("nest", 9)],
 }
 EVAL_ASSUME = ["harness Abs/Concretize projection (harness/val.go) is faithful",
                "TLC evaluates Sem!Eval as written",
@@ -538,6 +540,8 @@ def stages_C18(tier):
     n = 5 if tier == "quick" else 6
     out = [Stage("laws-n%d" % n, "MC_Expr", gen_cfg("laws", n, emit="laws", invariants=("EmitLaws", "LawsHold")), "C18",
                  modes=modes, timeout=1800),
+           Stage("laws-nest-n%d" % (n + 3), "MC_Expr", gen_cfg("nest", n + 3, emit="laws", invariants=("EmitLaws", "LawsHold")), "C18",
+                 modes=modes, timeout=2400),
            Stage("laws-sim", "MC_Expr", gen_cfg("laws", 11, maxclosure=3, emit="laws", invariants=("EmitLaws", "LawsHold")),
                  "C18", modes=modes, simulate=600 if tier == "quick" else 6000, depth=13, warm=False)]
     return out
@@ -613,6 +617,8 @@ def stages_C17(tier):
                   modes=modes, timeout=2400),
             Stage("ovl-branches-n%d" % (n + 1), "MC_Expr",
                   gen_cfg("ovlb", n + 1, emit="ovl", invariants=("EmitOvl", "OvlTyped")), "C17", modes=modes, timeout=2400),
+            Stage("ovl-table-n%d" % n, "MC_Expr", gen_cfg("ovl", n, emit="ovlt", invariants=("EmitOvlT",)), "C17",
+                  modes="struct:noopt,struct:opt", timeout=2400),
             Stage("ovl-sim", "MC_Expr", gen_cfg("ovl", 12, maxclosure=3, emit="ovl", invariants=("EmitOvl", "OvlTyped")),
                   "C17", modes=modes, simulate=1500 if tier == "quick" else 8000, depth=14, warm=False)]
 
@@ -653,8 +659,8 @@ def seq_cfg(alphabet, maxlen):
     return vf.cfg_text(c, init="TInit", next_="TNext", invariants=("EmitSeqs",))
 
 
-C11_FAMILIES = {"quick": [("prec", 5), ("ops", 4), ("postfix", 4), ("forms", 4), ("mixed", 4), ("cond", 7)],
-                "thorough": [("prec", 6), ("ops", 4), ("postfix", 5), ("forms", 5), ("mixed", 5), ("cond", 9)]}
+C11_FAMILIES = {"quick": [("prec", 5), ("ops", 5), ("postfix", 4), ("forms", 4), ("mixed", 4), ("cond", 7)],
+                "thorough": [("prec", 6), ("ops", 5), ("postfix", 5), ("forms", 5), ("mixed", 5), ("cond", 9)]}
 C11_SEQS = {"quick": [("ops", 4), ("post", 4), ("forms", 4)], "thorough": [("ops", 5), ("post", 5), ("forms", 5)]}
 
 
@@ -759,7 +765,7 @@ def stages_C13(tier):
                          modes="struct:opt,struct:noopt", timeout=2400))
     for fam, n in C13_FAMILIES[tier]["run"]:
         out.append(Stage("run-%s-n%d" % (fam, n), "MC_Err", err_cfg(fam, n, "run"), "C13",
-                         modes="struct:opt,struct:noopt", timeout=2400))
+                         modes="struct:opt,struct:noopt,none:noopt", timeout=2400))
     for alpha, n in C11_SEQS[tier]:
         out.append(Stage("seq-%s-len%d" % (alpha, n), "MC_Front", seq_cfg(alpha, n), "C13", timeout=2400))
     return out
